@@ -179,7 +179,7 @@ def main(chk: core.Check) -> int:
     c01_grpc_gen.regenerate(chk)  # T-grpc2: Generated/GrpcMethods.lean = the method bodies of servicer.py / client.py as IR
     c01_inmem_gen.regenerate(chk)  # T-inmem: Generated/InMemoryMethods.lean from storages/_in_memory.py (+ two methods of _base.py)
     if not getattr(chk, "no_prove", False):
-        chk.prove(["OptunaVerif.Props.C01", "OptunaVerif.Props.C01History", "OptunaVerif.Props.C01InMem", c01_inmem_gen.MODULE, "OptunaVerif.Props.C01Rdb", c01_grpc.PROPS_MODULE,
+        chk.prove(["OptunaVerif.Props.C01", "OptunaVerif.Props.C01History", "OptunaVerif.Props.C01Frame", "OptunaVerif.Props.C01InMem", c01_inmem_gen.MODULE, "OptunaVerif.Props.C01Rdb", c01_grpc.PROPS_MODULE,
                    *c01_grpc_gen.MODULES])
         c01_inmem_gen.explain_proof_failure(chk)
         c01_grpc_gen.explain_proof_failure(chk)
